@@ -55,7 +55,7 @@ func perturb(t *rapid.T, src []byte) []byte {
 
 func TestPerturbations(t *testing.T) {
 	mk := currentMasks()
-	rec.Check(t, rec.Scale(2000, 10000), func(t *rapid.T) {
+	rec.Check(t, rec.Scale(1500, 10000), func(t *rapid.T) {
 		base := declWindow(t, "file", rapid.SampledFrom([]int{300, 1500, 6000}).Draw(t, "win"))
 		src := perturb(t, base)
 		if !inDomain(src) {
@@ -603,7 +603,7 @@ func genFile(t *rapid.T) string {
 
 func TestGenerated(t *testing.T) {
 	mk := currentMasks()
-	rec.Check(t, rec.Scale(3000, 20000), func(t *rapid.T) {
+	rec.Check(t, rec.Scale(2500, 20000), func(t *rapid.T) {
 		src := []byte(genFile(t))
 		if !inDomain(src) {
 			return
